@@ -54,6 +54,8 @@ def variants(st0, tier):
             out.append((lab, (lambda nx: lambda: nx.build())(nx)))
     out.append(('mirrored', lambda: st0.build().mirrored(tuple([1.] + [0.] * (dim - 1)))))
     out.append(('scaled', lambda: st0.build().scaled(tuple([8., .125, 2.][:dim]))))
+    # far from the origin in non-dyadic units (map coordinates): vertex coordinates are rounded, cells stay well shaped
+    out.append(('far', lambda: st0.build().translated(tuple([500.3, -300.7, 200.1][:dim]))))
     if st0.kind != 'wedge':
         out.append(('refined', lambda: st0.build().refined()))
     if st0.kind in ('line', 'tri', 'tet'):
@@ -73,7 +75,7 @@ def items(tier, seed):
             st0 = ms.seeds(seed)[n]
             for lab, _ in variants(st0, tier):
                 its.append((n, lab, 'locate'))
-            for lab in ('plain', 'scaled', 'refined' if kind != 'wedge' else 'mirrored'):
+            for lab in ('plain', 'scaled', 'far', 'refined' if kind != 'wedge' else 'mirrored'):
                 its.append((n, lab, 'evaluate'))
     return its
 
@@ -177,9 +179,17 @@ def locate(st0, m, name, lab, tier, out):
     for k in range(npts):
         cc = containing_cells(kind, G, X[:, k], cands(X[:, k]))
         truth.append(cc)
+        if not cc and lab == 'far':
+            continue        # rounding moved a designated boundary point out of every cell: not a point of the domain
         if not cc:
             out.harness_error(f"designated point {labels[k]} {X[:, k].tolist()} lies in no cell ({name}:{lab})")
             return
+    if lab == 'far':
+        keep = [k for k in range(npts) if truth[k]]
+        out.count('far_points_rounded_out_of_the_domain', npts - len(keep))
+        X, labels, truth = X[:, keep], [labels[k] for k in keep], [truth[k] for k in keep]
+        npts = len(keep)
+
     # query shapes: single, all, reversed, duplicated
     def run(xq, idx, shape_label):
         try:
@@ -370,6 +380,19 @@ def evaluate(st0, m, name, lab, tier, out):
                 got3 = b.interpolator(y)(x3)
                 if np.asarray(got3).shape != (2, 2) or np.abs(got3 - want[interior[:4]].reshape(2, 2)).max() > 1e-8 * (1 + np.abs(want).max()):
                     bad('interpolator-trailing-axes', "interpolator with trailing axes returns wrong shape or values")
+                # the same points in other memory layouts (Fortran order, transposed view of a point-major grid, strided
+                # view): the VALUES of x decide, not its strides
+                if len(interior) >= 6:
+                    x6 = X[:, interior[:6]].reshape(dim, 2, 3)
+                    w6 = want[interior[:6]].reshape(2, 3)
+                    layouts = [('fortran', np.asfortranarray(x6)), ('transposed-view', np.ascontiguousarray(x6.transpose(1, 2, 0)).transpose(2, 0, 1)),
+                               ('strided', np.repeat(x6, 2, axis=2)[:, :, ::2])]
+                    for ll, xl in layouts:
+                        gl = b.interpolator(y)(xl)
+                        if np.asarray(gl).shape != (2, 3) or np.abs(gl - w6).max() > 1e-8 * (1 + np.abs(want).max()):
+                            bad('interpolator-trailing-axes', f"interpolator with trailing axes on a {ll} point array returns wrong "
+                                f"shape or values (values assigned to the wrong points?)")
+                            break
             if not comp_shape:
                 ps = b.point_source(X[:, interior[0]])
                 if ps.shape != (N,) or np.abs(ps - E[interior[0]]).max() > 1e-9 * scale:
